@@ -427,7 +427,8 @@ fn post_process<R, A, M, H, K, BE: Backend>(
 
         // First partial trace, vanishes all coefficients which are not multiples of gap_in
         // [1, 1, 1, 1, 0, 0, 0, ..., 0, 0, -1, -1, -1, -1] -> [1, 0, 0, 0, 0, 0, 0, ..., 0, 0, 0, 0, 0, 0]
-        module.glwe_trace(&mut a_trace, module.log_n() - log_gap_in + 1, a, auto_keys, scratch_1);
+        // (glwe_trace(skip, ..) keeps the multiples of N >> skip, so skip = log_n - log_gap_in)
+        module.glwe_trace(&mut a_trace, module.log_n() - log_gap_in, a, auto_keys, scratch_1);
 
         let steps: usize = 1 << log_domain;
 
@@ -449,6 +450,6 @@ fn post_process<R, A, M, H, K, BE: Backend>(
 
         module.glwe_pack(res, cts, log_gap_out, auto_keys, scratch_2);
     } else {
-        module.glwe_trace(res, module.log_n() - log_gap_in + 1, a, auto_keys, scratch);
+        module.glwe_trace(res, module.log_n() - log_gap_in, a, auto_keys, scratch);
     }
 }
